@@ -41,6 +41,17 @@ def run(ctx):
     ctx.obligation("whole tool on corpus/c08: %d marked dereferences of guarded results under check spellings outside the generator: reported iff the path has not established err == nil" % nm, nm > 0 and not mbad)
     for b in mbad[:3]:
         ctx.violation("spelling", "C08 fails on the real tool: %s\nreplay: bin/harness analyze -dir corpus/c08\n" % b)
+    # M11: the guard-nonce set operations of package guard == model/Nonce.v on random operation sequences
+    from . import nonce_suite as NS
+    nr = NS.correspond(ctx.seed * 104729 + 8, 2000 if ctx.tier == "quick" else 60000)
+    ctx.obligation("nonce-set correspondence ran", not nr["errors"])
+    ctx.obligation("correspondence (guard nonce sets): real guard.NonceSet Add / Remove / Union / Intersection / Copy / Contains / SubsetOf / Eq / IsEmpty == extracted model M11 on %d operation sequences (%d queries; Eq true %d, false %d)" % (
+        nr["n"], nr["queries"], nr["eq_true"], nr["eq_false"]), not nr["errors"] and not nr["mism"])
+    ctx.coverage.update({"nonce_sequences": nr["n"], "nonce_queries": nr["queries"]})
+    for e in nr["errors"][:1]:
+        ctx.violation("nonce-suite", e, found_input=False)
+    for (c, a, b) in nr["mism"][:2]:
+        ctx.violation("nonce", "the guard-nonce set operations (guard/guard.go) and model M11 disagree: theorems C08_nonce_* (Eq is set equality: a trigger that lost a guard at a join is a change the fixpoint iteration sees) no longer speak about the code; no program with an unreported unguarded dereference was found among the generated ones\n%s\nreal:  %s\nmodel: %s\n" % (NS.describe(c), a, b), found_input=False)
     # known finding F26: reproduce it from the corpus (and its control)
     from . import progcorpus as PC
     corpus = PC.c08_cases()
